@@ -66,6 +66,10 @@ func execC20(c C20Case) *Failure {
 	}
 	defer lc.Close()
 	cl := lc.C
+	if w.Srv != nil && c.Mode.Stateful() {
+		waitRegistered(w.Srv, 1) // the client's listening stream
+	}
+	ops := append(append([]int(nil), c.Ops...), 5, 0, 5, 1, 5, 6)
 	provider := mcp.NewDefaultRootsProvider(mcp.Root{URI: "file:///a", Name: "a"})
 	cl.SetRootsProvider(provider)
 	var wg sync.WaitGroup
@@ -98,7 +102,7 @@ func execC20(c C20Case) *Failure {
 				return
 			default:
 			}
-			switch c.Ops[i%len(c.Ops)] {
+			switch ops[i%len(ops)] {
 			case 0:
 				cl.RegisterNotificationHandler("notifications/progress", func(n *mcp.JSONRPCNotification) error { return nil })
 			case 1:
@@ -144,7 +148,7 @@ func execC20(c C20Case) *Failure {
 	time.AfterFunc(3*time.Second, func() {})
 	// stop side goroutine once callers are likely done
 	go func() {
-		time.Sleep(time.Duration(c.Rounds*c.Callers) * 2 * time.Millisecond)
+		time.Sleep(20*time.Millisecond + time.Duration(c.Rounds*c.Callers)*2*time.Millisecond)
 		close(stop)
 	}()
 	select {
@@ -165,4 +169,94 @@ func execC20(c C20Case) *Failure {
 func TestC20Client(t *testing.T) {
 	RunProp(t, Prop[C20Case]{ID: "C20", Gen: genC20, Exec: execC20,
 		NT: func(c C20Case) (bool, []string) { return c.Callers >= 2, []string{"mode=" + c.Mode.String()} }})
+}
+
+// ---------------------------------------------------------------------------
+// several library clients answer server-issued roots/list requests at the same time
+
+type C20RootsCase struct {
+	Mode    Mode `json:"mode"` // ModeSJ, ModeSS or ModeLegacy
+	Clients int  `json:"clients"`
+	Calls   int  `json:"calls"`
+}
+
+func execC20Roots(c C20RootsCase) *Failure {
+	w := NewWorld(c.Mode, RegSpec{}, WorldOpt{})
+	defer w.Close()
+	type lister interface {
+		ListRoots(ctx context.Context) (*mcp.ListRootsResult, error)
+	}
+	RegistrarOf(serverOf(w)).RegisterTool(mcp.NewTool("roots"), func(ctx context.Context, req *mcp.CallToolRequest) (*mcp.CallToolResult, error) {
+		l, ok := mcp.GetServerFromContext(ctx).(lister)
+		if !ok {
+			return mcp.NewTextResult("err:no server"), nil
+		}
+		rctx, cancel := context.WithTimeout(ctx, 3*time.Second)
+		defer cancel()
+		res, err := l.ListRoots(rctx)
+		if err != nil {
+			return mcp.NewTextResult("err:" + err.Error()), nil
+		}
+		out := "roots:"
+		for _, r := range res.Roots {
+			out += r.URI + ","
+		}
+		return mcp.NewTextResult(out), nil
+	})
+	var clients []*libClient
+	for i := 0; i < c.Clients; i++ {
+		lc, err := w.ConnectLib(false, nil)
+		if err != nil {
+			return Failf("C20/connect", "%v", err)
+		}
+		defer lc.Close()
+		lc.C.SetRootsProvider(mcp.NewDefaultRootsProvider(mcp.Root{URI: fmt.Sprintf("file:///client-%d", i), Name: "r"}))
+		clients = append(clients, lc)
+	}
+	if w.Srv != nil {
+		waitRegistered(w.Srv, c.Clients)
+	}
+	var wg sync.WaitGroup
+	var mu sync.Mutex
+	var bad []string
+	for i, lc := range clients {
+		wg.Add(1)
+		go func(i int, lc *libClient) {
+			defer wg.Done()
+			for k := 0; k < c.Calls; k++ {
+				ctx, cancel := context.WithTimeout(context.Background(), 5*time.Second)
+				req := &mcp.CallToolRequest{}
+				req.Params.Name = "roots"
+				res, err := lc.C.CallTool(ctx, req)
+				cancel()
+				got := ""
+				if err != nil {
+					got = "error:" + err.Error()
+				} else if len(res.Content) == 1 {
+					got = res.Content[0].(mcp.TextContent).Text
+				}
+				if got != fmt.Sprintf("roots:file:///client-%d,", i) {
+					mu.Lock()
+					bad = append(bad, fmt.Sprintf("client %d call %d: %s", i, k, got))
+					mu.Unlock()
+				}
+			}
+		}(i, lc)
+	}
+	wg.Wait()
+	if len(bad) > 0 {
+		f := Failf("C20/roots-under-load", "%s with %d clients answering roots/list concurrently: %v", c.Mode, c.Clients, bad[:1])
+		f.Timing = true
+		return f
+	}
+	return nil
+}
+
+func TestC20Roots(t *testing.T) {
+	RunProp(t, Prop[C20RootsCase]{ID: "C20",
+		Gen: func(t *rapid.T) C20RootsCase {
+			return C20RootsCase{Mode: rapid.SampledFrom([]Mode{ModeSJ, ModeSS, ModeLegacy}).Draw(t, "mode"), Clients: rapid.IntRange(2, 5).Draw(t, "clients"), Calls: rapid.IntRange(1, 8).Draw(t, "calls")}
+		},
+		Exec: execC20Roots,
+		NT:   func(c C20RootsCase) (bool, []string) { return c.Clients >= 2, []string{"mode=" + c.Mode.String()} }})
 }
